@@ -12,10 +12,11 @@ from .obs import _norm_value, _panel, _try, diff, observe
 class MutableAlias:
     """Slot content: this slot is the same (mutable-mode) object as slot `root`."""
 
-    __slots__ = ("root",)
+    __slots__ = ("root", "failed")
 
-    def __init__(self, root):
+    def __init__(self, root, failed=None):
         self.root = root
+        self.failed = failed  # the in-place call raised (it may have taken partial effect: no atomicity promised)
 
 
 def _deref(env, i):
@@ -96,6 +97,7 @@ def exec_op(env: Env, op, dup_identity=False):
     """Execute one op against env and return the slot content (never raises library errors)."""
     k = op["op"]
     L = env.L
+    r = None
     for d in op_deps(op):
         v = _deref(env, d)
         if isinstance(v, (Failed, Skipped, Value)):
@@ -142,6 +144,9 @@ def exec_op(env: Env, op, dup_identity=False):
     except HarnessError:
         raise
     except Exception as e:  # noqa: BLE001  library exception: a legitimate outcome of the op
+        if stage == "call" and k in ("call", "join") and r is not None \
+                and getattr(r, "__dict__", {}).get("immutable", True) is False:
+            return MutableAlias(op["r"], failed=type(e).__name__)
         return Failed(type(e).__name__, str(e)[:200], stage=stage)
 
 
@@ -164,7 +169,7 @@ def execute(program, share_tables=True, only=None, env=None, dup_identity=False,
             continue
         v = exec_op(env, program[i], dup_identity=dup_identity)
         if isinstance(v, _IdentityDup):
-            v = env.heap[v.root]
+            v = _deref(env, v.root)
         env.heap.append(v)
         if on_op is not None:
             on_op(env, i)
@@ -174,7 +179,7 @@ def execute(program, share_tables=True, only=None, env=None, dup_identity=False,
 def slot_obs(env: Env, i: int, **kw) -> dict:
     v = env.heap[i]
     if isinstance(v, MutableAlias):
-        return {"alias_of": v.root}
+        return {"alias_of": v.root, "call_failed": v.failed}
     if isinstance(v, Failed):
         if v.injected:
             return {"injected": True}
